@@ -196,8 +196,9 @@ func (tp *tdposConsensus) CheckMinerMatch(ctx xcontext.XContext, block cctx.Bloc
 	tp.log.Debug("Tdpos::CheckMinerMatch", "blockid", utils.F(block.GetBlockid()), "height", block.GetHeight())
 
 	// 1 判断当前区块生产者是否合法
-	_, pos, blockPos := tp.election.minerScheduling(block.GetTimestamp())
-	if blockPos < 0 || blockPos >= tp.election.blockNum || pos >= tp.election.proposerNum {
+	// term为0表示区块时间戳早于共识起始时间, 此时不存在合法的出块人
+	term, pos, blockPos := tp.election.minerScheduling(block.GetTimestamp())
+	if term < 1 || blockPos < 0 || blockPos >= tp.election.blockNum || pos >= tp.election.proposerNum {
 		tp.log.Warn("Tdpos::CheckMinerMatch::minerScheduling overflow.")
 		return false, scheduleErr
 	}
